@@ -698,6 +698,14 @@ func checkErrorsExaminedOnEveryPath(p *Program, r *Result, pkgs []string) {
 									return onPath(x.X, d+1)
 								case *ssa.Call:
 									cn := calleeName(&x.Call)
+									// a helper of the module that is given the error and returns an error
+									if callee := staticCallee(&x.Call); callee != nil && p.inModule(callee) && isErrorType(x.Type()) {
+										for _, a := range x.Call.Args {
+											if onPath(a, d+1) {
+												return true
+											}
+										}
+									}
 									if cn == "fmt.Errorf" || strings.HasSuffix(cn, ".errorf") || strings.HasSuffix(cn, ".setErr") {
 										for _, a := range x.Call.Args {
 											if onPath(a, d+1) {
